@@ -326,13 +326,24 @@ func runSetAt(w *tn.World, qs []*tn.Query, which []int, locA, locB, rem []int, p
 			// a store of its own (persistence option; its dedup key is then the option's name)
 			var held []int
 			held = append(held, p.Ign[qi]...)
+			// do-not-send-first-blocks k: the request vouches for the first k blocks the RESPONDER would
+			// send (its own traversal over its own store), not for the first k links of the full DAG — a
+			// locally held prefix the responder cannot follow is C02's skip-prefix-mismatch, in the solo
+			// run as well
+			remS := map[int]bool{}
+			for _, b := range rem {
+				remS[b] = true
+			}
+			nodes, present := qs[qi].ResponderStream(remS)
 			succ := 0
-			for _, l := range qs[qi].LT {
+			for i, nd := range nodes {
 				if succ >= p.Skip[qi] {
 					break
 				}
-				held = append(held, l.Block)
-				succ++
+				if present[i] {
+					held = append(held, qs[qi].LT[nd].Block)
+					succ++
+				}
 			}
 			name := fmt.Sprintf("alt%d", qi)
 			if err := s.AddAltStore(node, name, held); err == nil {
